@@ -6,12 +6,17 @@
 //!   c14:jwk     {"hex": <text bytes>, "prim": {…}}            `Box<AnyKey>::from_jwk`, then every export of the key
 //!   c14:secret  {"alg", "bytes", "prim"}                      `from_secret_bytes`, then every export
 //!   c14:public  {"alg", "bytes", "prim"}                      `from_public_bytes`, then every export
+//!   c14:enc     {"alg","secret"|"public","mode","view","ops","kid","prim"}  `JwkBufferEncoder::new(..).alg(..).key_ops(..).kid(..)`,
+//!                                                              `encode_jwk`, `finalize`; the text, and `JwkParts::from_slice` of it
+//!   c14:keypair {"alg","bytes","op":"from"|"to_public"}        `KeypairBytes::from_keypair_bytes` / `to_keypair_bytes` of the 5 concrete types
+//!   c14:convert {"alg","secret"|"public"|"jwk","to","prim"}    `AnyKeyCreate::convert_key`, then every export of the converted key
 //! "class" / "expect" / "want_*" are read by the oracle only; "prim" (table of third-party curve results for
 //! Ed25519 / X25519 / BLS12-381) is read by the Lean model only.
 use crate::rng::Rng;
 use askar_crypto::alg::{AesTypes, AnyKey, AnyKeyCreate, BlsCurves, Chacha20Types, EcCurves, KeyAlg};
-use askar_crypto::jwk::{FromJwk, JwkBufferEncoder, JwkEncoderMode, JwkParts, ToJwk};
-use askar_crypto::repr::{ToPublicBytes, ToSecretBytes};
+use askar_crypto::alg::{bls::{BlsKeyPair, G1, G1G2, G2}, ed25519::Ed25519KeyPair, k256::K256KeyPair, p256::P256KeyPair, p384::P384KeyPair, x25519::X25519KeyPair};
+use askar_crypto::jwk::{FromJwk, JwkBufferEncoder, JwkEncoder, JwkEncoderMode, JwkParts, JwkSerialize, KeyOps, KeyOpsSet, ToJwk};
+use askar_crypto::repr::{KeyPublicBytes, KeypairBytes, ToPublicBytes, ToSecretBytes};
 use serde_json::{json, Map, Value};
 use std::panic::{catch_unwind, AssertUnwindSafe};
 
@@ -485,6 +490,9 @@ pub fn exec(case: &Value, _tag: &str) -> Value {
                 }
             }
         }
+        "c14:enc" => exec_enc(case, &class, &mut or, &mut feat),
+        "c14:keypair" => exec_keypair(case, &class, &mut or, &mut feat),
+        "c14:convert" => exec_convert(case, &class, &mut or, &mut feat),
         _ => jerr("unknown kind"),
     };
     json!({"out": out, "oracle": or, "feat": feat})
@@ -970,6 +978,11 @@ pub fn gen(r: &mut Rng, thorough: bool, count: Option<usize>) -> Vec<Value> {
         o.text_case("c14:parse", t, "degenerate", None, json!({}));
     }
     gen_bytes(&mut o, r, thorough);
+    // second wave (coverage gaps): appended so that the cases above keep their ids and random streams
+    gen_keyops_import(&mut o, r, thorough);
+    gen_enc(&mut o, r, thorough);
+    gen_keypair(&mut o, r, thorough);
+    gen_convert(&mut o, r, thorough);
     let mut cases = o.cases;
     if let Some(n) = count {
         // a spread sample that keeps every kind
@@ -977,4 +990,491 @@ pub fn gen(r: &mut Rng, thorough: bool, count: Option<usize>) -> Vec<Value> {
         cases = cases.into_iter().step_by(step).take(n).collect();
     }
     cases
+}
+
+// ---------------------------------------------------------------------------------------------------------------------
+// second wave: the encoder with key_ops / kid, key_ops / use on import, keypair bytes, key conversion
+
+/// RFC 7517 §4.3 names, indexed by the bit the crate's `KeyOps` enum assigns (Encrypt = 1 << 0, …)
+const OP_NAMES: [&str; 8] = ["encrypt", "decrypt", "sign", "verify", "wrapKey", "unwrapKey", "deriveKey", "deriveBits"];
+
+fn ops_set(bits: u64) -> KeyOpsSet {
+    let all = [KeyOps::Encrypt, KeyOps::Decrypt, KeyOps::Sign, KeyOps::Verify, KeyOps::WrapKey, KeyOps::UnwrapKey, KeyOps::DeriveKey, KeyOps::DeriveBits];
+    let mut s = KeyOpsSet::new();
+    for (i, op) in all.iter().enumerate() { if (bits >> i) & 1 == 1 { s = s | *op; } }
+    s
+}
+
+fn unhex(v: &Value) -> Option<Vec<u8>> { v.as_str().and_then(|h| hex::decode(h).ok()) }
+
+/// `JwkSerialize` wants a sized key type
+struct Sized_<'a>(&'a AnyKey);
+impl ToJwk for Sized_<'_> {
+    fn encode_jwk(&self, enc: &mut dyn JwkEncoder) -> Result<(), askar_crypto::Error> { self.0.encode_jwk(enc) }
+}
+
+fn source_key(case: &Value) -> Result<Key, &'static str> {
+    if let Some(t) = unhex(&case["jwk"]) { return import_jwk(&String::from_utf8_lossy(&t)); }
+    let info = alg_by_name(case["alg"].as_str().unwrap_or("")).ok_or("unknown alg")?;
+    if let Some(sk) = unhex(&case["secret"]) { import_secret(info.alg, &sk) } else { import_public(info.alg, &unhex(&case["public"]).unwrap_or_default()) }
+}
+
+fn exec_enc(case: &Value, class: &str, or: &mut Vec<Value>, feat: &mut Map<String, Value>) -> Value {
+    let key = match source_key(case) { Ok(k) => k, Err(e) => return json!({"import_err": e}) };
+    let info = alg_by_keyalg(key.algorithm());
+    let mode = match case["mode"].as_str() { Some("public") => JwkEncoderMode::PublicKey, Some("secret") => JwkEncoderMode::SecretKey, _ => JwkEncoderMode::Thumbprint };
+    let view = case["view"].as_str().and_then(alg_by_name).map(|i| i.alg);
+    let ops = case["ops"].as_u64();
+    let kid: Option<String> = unhex(&case["kid"]).map(|b| String::from_utf8(b).unwrap_or_default());
+    let r = guarded(|| {
+        let mut v: Vec<u8> = Vec::new();
+        let mut enc = JwkBufferEncoder::new(&mut v, mode).alg(view).key_ops(ops.map(ops_set)).kid(kid.as_deref());
+        key.encode_jwk(&mut enc)?;
+        enc.finalize()?;
+        Ok(v)
+    });
+    // which argument a defect would be attributed to (generator classes keep them apart)
+    let cause = if ops.is_some() { "key_ops" } else if kid.as_ref().map_or(false, |k| k.bytes().any(|c| c == b'"' || c == b'\\' || c < 0x20)) { "kid-needs-escape" } else if kid.is_some() { "kid" } else { "plain" };
+    bump(feat, format!("enc:{}:{}", cause, if r.is_ok() { "ok" } else { "err" }));
+    let text = match r {
+        Ok(v) => v,
+        Err(e) => {
+            if e == "Panic" { fail(or, format!("encoder:err->panic:{}:{}", info.class.s(), cause), json!({"class": class})); }
+            else if !(info.class == Class::Sym && mode == JwkEncoderMode::PublicKey) { fail(or, format!("encoder:ok->err:{}:{}:{}", e, info.class.s(), cause), json!({"class": class})); }
+            return jerr(e);
+        }
+    };
+    let parts = match catch_unwind(AssertUnwindSafe(|| JwkParts::from_slice(&text).map(|p| parts_json(&p)).map_err(|e| ek(&e)))) { Ok(Ok(v)) => v, Ok(Err(e)) => jerr(e), Err(_) => jerr("Panic") };
+    let shown = String::from_utf8_lossy(&text).into_owned();
+    // (1) the text is a JSON object — judged by serde_json, not by the library's own parser
+    let parsed: Option<Map<String, Value>> = serde_json::from_slice::<Value>(&text).ok().and_then(|v| v.as_object().cloned());
+    // (2) with exactly the members asked for
+    let base = match mode { JwkEncoderMode::PublicKey => guarded(|| key.to_jwk_public(view).map(|s| s.into_bytes())), JwkEncoderMode::SecretKey => guarded(|| key.to_jwk_secret(view).map(|b| b.to_vec())), JwkEncoderMode::Thumbprint => thumb_pre(&key, view) };
+    let mut want: Map<String, Value> = base.ok().and_then(|b| serde_json::from_slice::<Value>(&b).ok()).and_then(|v| v.as_object().cloned()).unwrap_or_default();
+    if let Some(bits) = ops { want.insert("key_ops".into(), json!((0..8).filter(|i| (bits >> i) & 1 == 1).map(|i| OP_NAMES[i]).collect::<Vec<_>>())); }
+    if let Some(k) = &kid { want.insert("kid".into(), json!(k)); }
+    let norm = |m: &Map<String, Value>| -> Value { let mut m = m.clone(); if let Some(Value::Array(a)) = m.get_mut("key_ops") { a.sort_by(|x, y| x.as_str().cmp(&y.as_str())); } Value::Object(m) };
+    match &parsed {
+        None => fail(or, format!("encoder:not-json:{}", cause), json!({"text": shown, "class": class})),
+        Some(got) => { if norm(got) != norm(&want) { fail(or, format!("encoder:wrong-members:{}", cause), json!({"text": shown, "want": want})); } }
+    }
+    // (3) the crate's serde encoder is asked for the same thing: same object
+    let ser = catch_unwind(AssertUnwindSafe(|| serde_json::to_value(JwkSerialize::new(&Sized_(&key), mode).alg(view).key_ops(ops.map(ops_set)).kid(kid.as_deref())).ok()));
+    match ser {
+        Ok(Some(Value::Object(sv))) => { if parsed.as_ref().map_or(true, |g| norm(g) != norm(&sv)) { fail(or, format!("encoder:differs-from-JwkSerialize:{}", cause), json!({"text": shown, "serialize": sv})); } if norm(&sv) != norm(&want) { fail(or, format!("JwkSerialize:wrong-members:{}", cause), json!({"serialize": sv, "want": want})); } }
+        Ok(_) => fail(or, format!("JwkSerialize:ok->err:{}:{}", info.class.s(), cause), json!({"class": class})),
+        Err(_) => fail(or, format!("JwkSerialize:err->panic:{}:{}", info.class.s(), cause), json!({"class": class})),
+    }
+    // (4) the library's own parser reads back what was asked for
+    match parts.get("parts") {
+        None => fail(or, format!("encoder:own-parser-rejects:{}:{}", parts["err"].as_str().unwrap_or(""), cause), json!({"text": shown})),
+        Some(p) => {
+            let kid_ok = p["kid"].as_str().map(|s| s.to_string()) == kid.as_ref().map(|k| hex::encode(k.as_bytes()));
+            if p["key_ops"].as_u64() != ops || !kid_ok { fail(or, format!("encoder:parts-mismatch:{}", cause), json!({"text": shown, "parts": p})); }
+        }
+    }
+    // (5) and the export still imports as the key
+    if info.class != Class::Sym && mode != JwkEncoderMode::Thumbprint {
+        match import_jwk(&shown) {
+            Ok(k2) => {
+                let (a, b) = (summary(&key), summary(&k2));
+                let same = a["public"] == b["public"] && a["alg"] == b["alg"] && (if mode == JwkEncoderMode::SecretKey && view.is_none() { a["secret"] == b["secret"] } else { b["secret"].as_str().is_none() });
+                if !same && view.is_none() { fail(or, format!("encoder:reimport:different-key:{}:{}", info.class.s(), cause), json!({"text": shown})); }
+            }
+            Err(e) => fail(or, format!("encoder:reimport:ok->err:{}:{}", e, cause), json!({"text": shown})),
+        }
+    }
+    json!({"text": hex::encode(&text), "parts": parts})
+}
+
+type Triple = (Vec<u8>, Vec<u8>, Vec<u8>);
+
+fn kp_from<K: KeypairBytes + ToSecretBytes + ToPublicBytes>(b: &[u8]) -> Result<Triple, askar_crypto::Error> {
+    let k = K::from_keypair_bytes(b)?;
+    Ok((k.to_secret_bytes()?.to_vec(), k.to_public_bytes()?.to_vec(), k.to_keypair_bytes()?.to_vec()))
+}
+
+fn kp_public_only<K: KeypairBytes + KeyPublicBytes>(b: &[u8]) -> Result<Vec<u8>, askar_crypto::Error> {
+    K::from_public_bytes(b)?.to_keypair_bytes().map(|v| v.to_vec())
+}
+
+const KEYPAIR_ALGS: [&str; 5] = ["ed25519", "x25519", "k256", "p256", "p384"];
+
+fn exec_keypair(case: &Value, class: &str, or: &mut Vec<Value>, feat: &mut Map<String, Value>) -> Value {
+    let name = case["alg"].as_str().unwrap_or("");
+    let info = match alg_by_name(name) { Some(i) if KEYPAIR_ALGS.contains(&i.name) => i, _ => return jerr("unknown alg") };
+    let b = unhex(&case["bytes"]).unwrap_or_default();
+    let c = info.class.s();
+    if case["op"] == "to_public" {
+        let r = guarded(|| match name { "ed25519" => kp_public_only::<Ed25519KeyPair>(&b), "x25519" => kp_public_only::<X25519KeyPair>(&b), "k256" => kp_public_only::<K256KeyPair>(&b), "p256" => kp_public_only::<P256KeyPair>(&b), _ => kp_public_only::<P384KeyPair>(&b) });
+        bump(feat, format!("to_keypair_bytes:public-only:{}", match &r { Ok(_) => "ok", Err(e) => e }));
+        match &r {
+            Ok(v) => fail(or, format!("to_keypair_bytes:secret-from-nowhere:{}", c), json!({"alg": name, "keypair": hex::encode(v)})),
+            Err(e) if *e == "Panic" => fail(or, format!("to_keypair_bytes:err->panic:{}", c), json!({"alg": name})),
+            Err(e) if *e != "MissingSecretKey" && case["expect"] == "ok" => fail(or, format!("to_keypair_bytes:wrong-error-kind:{}:{}", e, c), json!({"alg": name})),
+            _ => {}
+        }
+        return json!({"keypair": hex_res(r)});
+    }
+    let r = guarded(|| match name { "ed25519" => kp_from::<Ed25519KeyPair>(&b), "x25519" => kp_from::<X25519KeyPair>(&b), "k256" => kp_from::<K256KeyPair>(&b), "p256" => kp_from::<P256KeyPair>(&b), _ => kp_from::<P384KeyPair>(&b) });
+    // what the property allows, judged without the keypair code: right length, scalar in range, public part = public key of the secret
+    let (n, m) = (info.sk, info.pk);
+    let why = if b.len() != n + m { "wrong-length" } else if !secret_in_range(&info, &b[..n]) { "scalar-out-of-range" }
+        else if import_secret(info.alg, &b[..n]).ok().and_then(|k| k.to_public_bytes().ok().map(|p| p.to_vec())) != Some(b[n..].to_vec()) { "public-of-another-key" } else { "valid" };
+    bump(feat, format!("from_keypair_bytes:{}:{}:{}", c, why, match &r { Ok(_) => "ok", Err(e) => e }));
+    match r {
+        Ok((sk, pk, kp)) => {
+            if why != "valid" { fail(or, format!("from_keypair_bytes:err->ok:{}:{}", c, why), json!({"alg": name, "bytes": hex::encode(&b), "class": class})); }
+            if b.len() >= n && (sk != b[..n] || pk != b[n..]) { fail(or, format!("from_keypair_bytes:different-key:{}", c), json!({"alg": name, "bytes": hex::encode(&b)})); }
+            if kp != b { fail(or, format!("keypair_roundtrip:bytes-differ:{}", c), json!({"alg": name, "bytes": hex::encode(&b), "got": hex::encode(&kp)})); }
+            json!({"secret": hex::encode(sk), "public": hex::encode(pk), "keypair": hex::encode(kp)})
+        }
+        Err(e) => {
+            if e == "Panic" { fail(or, format!("from_keypair_bytes:err->panic:{}:{}", c, why), json!({"alg": name, "len": b.len()})); }
+            else if why == "valid" { fail(or, format!("from_keypair_bytes:ok->err:{}:{}", e, c), json!({"alg": name, "bytes": hex::encode(&b)})); }
+            else if e != "InvalidKeyData" { fail(or, format!("from_keypair_bytes:wrong-error-kind:{}:{}:{}", e, c, why), json!({"alg": name, "len": b.len()})); }
+            jerr(e)
+        }
+    }
+}
+
+// GF(2^255 - 19) on four 64-bit limbs, little-endian: just enough for the RFC 7748 §4.1 map u = (1 + y) / (1 - y)
+type Fe = [u64; 4];
+const FE_P: Fe = [0xffff_ffff_ffff_ffed, 0xffff_ffff_ffff_ffff, 0xffff_ffff_ffff_ffff, 0x7fff_ffff_ffff_ffff];
+
+fn fe_geq(a: &Fe, b: &Fe) -> bool { for i in (0..4).rev() { if a[i] != b[i] { return a[i] > b[i]; } } true }
+fn fe_sub_raw(a: &Fe, b: &Fe) -> Fe { let mut r = [0u64; 4]; let mut borrow = 0u64; for i in 0..4 { let (d, b1) = a[i].overflowing_sub(b[i]); let (d, b2) = d.overflowing_sub(borrow); r[i] = d; borrow = (b1 || b2) as u64; } r }
+fn fe_norm(mut a: Fe) -> Fe { while fe_geq(&a, &FE_P) { a = fe_sub_raw(&a, &FE_P); } a }
+fn fe_add(a: &Fe, b: &Fe) -> Fe { let mut r = [0u64; 4]; let mut c = 0u128; for i in 0..4 { let t = a[i] as u128 + b[i] as u128 + c; r[i] = t as u64; c = t >> 64; } fe_norm(r) }   // a, b < p < 2^255: no carry out
+fn fe_sub(a: &Fe, b: &Fe) -> Fe { fe_add(a, &fe_sub_raw(&FE_P, b)) }
+fn fe_mul(a: &Fe, b: &Fe) -> Fe {
+    let mut t = [0u64; 8];
+    for i in 0..4 { let mut c = 0u128; for j in 0..4 { let v = t[i + j] as u128 + (a[i] as u128) * (b[j] as u128) + c; t[i + j] = v as u64; c = v >> 64; } t[i + 4] = c as u64; }
+    // 2^256 = 38 (mod p)
+    let mut r = [0u64; 4]; let mut c = 0u128;
+    for i in 0..4 { let v = t[i] as u128 + (t[i + 4] as u128) * 38 + c; r[i] = v as u64; c = v >> 64; }
+    while c != 0 { let mut k = c * 38; c = 0; for i in 0..4 { let v = r[i] as u128 + k; r[i] = v as u64; k = v >> 64; } c = k; }
+    fe_norm(r)
+}
+fn fe_inv(a: &Fe) -> Fe {
+    // a^(p-2); 0 -> 0 (the convention of curve25519-dalek's to_montgomery for y = 1)
+    let e = fe_sub_raw(&FE_P, &[2, 0, 0, 0]);
+    let mut r: Fe = [1, 0, 0, 0];
+    for i in (0..255).rev() { r = fe_mul(&r, &r); if (e[i / 64] >> (i % 64)) & 1 == 1 { r = fe_mul(&r, a); } }
+    r
+}
+fn fe_from_le(b: &[u8]) -> Fe { let mut r = [0u64; 4]; for i in 0..32 { r[i / 8] |= (b[i] as u64) << (8 * (i % 8)); } r[3] &= 0x7fff_ffff_ffff_ffff; fe_norm(r) }
+fn fe_to_le(a: &Fe) -> Vec<u8> { (0..32).map(|i| (a[i / 8] >> (8 * (i % 8))) as u8).collect() }
+
+/// RFC 7748 §4.1: the Montgomery u-coordinate of the Edwards point with this y (sign bit ignored, y taken modulo p)
+pub fn birational_u(ed_public: &[u8]) -> Vec<u8> {
+    let y = fe_from_le(ed_public);
+    let one: Fe = [1, 0, 0, 0];
+    fe_to_le(&fe_mul(&fe_add(&one, &y), &fe_inv(&fe_sub(&one, &y))))
+}
+
+fn exec_convert(case: &Value, class: &str, or: &mut Vec<Value>, feat: &mut Map<String, Value>) -> Value {
+    let key = match source_key(case) { Ok(k) => k, Err(e) => { bump(feat, format!("convert:import-err:{}", e)); return json!({"import_err": e}); } };
+    let from = alg_by_keyalg(key.algorithm());
+    let to = match alg_by_name(case["to"].as_str().unwrap_or("")) { Some(i) => i, None => return jerr("unknown alg") };
+    let src = summary(&key);
+    let r = guarded(|| key.convert_key(to.alg));
+    let supported = (from.name == "ed25519" && to.name == "x25519") || (from.name == "bls12381g1g2" && (to.name == "bls12381g1" || to.name == "bls12381g2"));
+    bump(feat, format!("convert:{}->{}:{}", if supported { from.name } else { "other" }, if supported { to.name } else { "other" }, match &r { Ok(_) => "ok", Err(e) => e }));
+    let has_secret = src["secret"].as_str().is_some();
+    let which = if has_secret { "keypair" } else { "public-only" };
+    let k2 = match r {
+        Ok(k) => k,
+        Err(e) => {
+            if e == "Panic" { fail(or, format!("convert:err->panic:{}->{}:{}", from.name, to.name, which), json!({"class": class, "public": src["public"]})); }
+            else if supported { fail(or, format!("convert:ok->err:{}:{}->{}:{}", e, from.name, to.name, which), json!({"class": class})); }
+            else if e != "Unsupported" { fail(or, format!("convert:wrong-error-kind:{}:{}->{}", e, from.name, to.name), json!(null)); }
+            return json!({"conv": jerr(e)});
+        }
+    };
+    let s2 = summary(&k2);
+    if !supported { fail(or, format!("convert:err->ok:{}->{}", from.name, to.name), json!(null)); }
+    if k2.algorithm() != to.alg { fail(or, format!("convert:wrong-algorithm:{}->{}", from.name, to.name), json!({"got": s2["alg"]})); }
+    if s2["secret"].as_str().is_some() != has_secret { fail(or, format!("convert:{}:{}->{}", if has_secret { "secret-lost" } else { "secret-from-nowhere" }, from.name, to.name), json!(null)); }
+    let pub_src = src["public"].as_str().map(|h| hex::decode(h).unwrap()).unwrap_or_default();
+    let pub2 = s2["public"].as_str().map(|h| hex::decode(h).unwrap()).unwrap_or_default();
+    if supported && to.name == "x25519" {
+        // RFC 7748 §4.1 (independent field arithmetic): the X25519 public key is the image of the Ed25519 public key …
+        if pub_src.len() == 32 && birational_u(&pub_src) != pub2 { fail(or, format!("convert:public-not-birational-image:{}", which), json!({"ed": hex::encode(&pub_src), "x": hex::encode(&pub2), "want": hex::encode(birational_u(&pub_src))})); }
+        // … the converted pair is a pair (X25519's own derivation agrees) …
+        if let Some(xs) = s2["secret"].as_str() {
+            match import_secret(KeyAlg::X25519, &hex::decode(xs).unwrap()) { Ok(k3) => { if summary(&k3) != s2 { fail(or, "convert:x25519-pair-inconsistent".into(), json!({"secret": xs})); } } Err(e) => fail(or, format!("convert:x25519-secret-rejected:{}", e), json!(null)) }
+            // … and converting the public half alone gives the same public key
+            match import_public(KeyAlg::Ed25519, &pub_src).and_then(|p| guarded(|| p.convert_key(KeyAlg::X25519))) { Ok(k4) => { if summary(&k4)["public"] != s2["public"] { fail(or, "convert:keypair-and-public-only-disagree".into(), json!({"ed": hex::encode(&pub_src)})); } } Err(e) => fail(or, format!("convert:public-half:ok->err:{}", e), json!({"ed": hex::encode(&pub_src)})) }
+        }
+    } else if supported {
+        // the crate's own G1 / G2 key of the same secret (and of the same seed, when the case was made from one)
+        let want = if to.name == "bls12381g1" { pub_src.get(..48) } else { pub_src.get(48..) }.map(|s| s.to_vec()).unwrap_or_default();
+        if pub2 != want { fail(or, format!("convert:public-not-the-{}-half", to.name), json!({"got": hex::encode(&pub2)})); }
+        if let Some(sk) = src["secret"].as_str() {
+            if s2["secret"].as_str() != Some(sk) { fail(or, format!("convert:different-secret:{}", to.name), json!(null)); }
+            match import_secret(to.alg, &hex::decode(sk).unwrap()) { Ok(k3) => { if summary(&k3) != s2 { fail(or, format!("convert:differs-from-own-key:{}", to.name), json!({"secret": sk})); } } Err(e) => fail(or, format!("convert:own-key:ok->err:{}", e), json!(null)) }
+        }
+        if let Some(seed) = unhex(&case["seed"]) {
+            let own = if to.name == "bls12381g1" { guarded(|| BlsKeyPair::<G1>::from_seed(&seed).and_then(|k| k.to_public_bytes().map(|b| b.to_vec()))) } else { guarded(|| BlsKeyPair::<G2>::from_seed(&seed).and_then(|k| k.to_public_bytes().map(|b| b.to_vec()))) };
+            let both = guarded(|| BlsKeyPair::<G1G2>::from_seed(&seed).and_then(|k| k.to_secret_bytes().map(|b| b.to_vec())));
+            if own.as_ref().ok() != Some(&pub2) || both.ok().map(hex::encode).as_deref() != src["secret"].as_str() { fail(or, format!("convert:differs-from-seeded-key:{}", to.name), json!({"seed": hex::encode(&seed)})); }
+        }
+    }
+    check_key(or, &k2, &s2);
+    json!({"conv": s2})
+}
+
+// --- generators ---
+
+/// `"key_ops"` / `"use"` members on import: the parser records them (c14:parse), the import ignores them (c14:jwk)
+fn gen_keyops_import(o: &mut Out, r: &mut Rng, thorough: bool) {
+    let infos: Vec<AlgInfo> = algs().into_iter().filter(|a| a.class != Class::Sym).collect();
+    let mut which = 0usize;
+    let mut base = |r: &mut Rng| -> (AlgInfo, Vec<u8>, Option<Vec<u8>>, Vec<Member>) {
+        let info = alg_by_name(infos[which % infos.len()].name).unwrap();
+        which += 1;
+        let sk = random_secret(r, &info);
+        let s = summary(&import_secret(info.alg, &sk).unwrap());
+        let pk = s["public"].as_str().map(|h| hex::decode(h).unwrap());
+        (info, sk, pk, members_of_jwk(s["jwk_secret"].as_str().unwrap()))
+    };
+    let quote = |names: &[&str]| format!("[{}]", names.iter().map(|n| format!("\"{}\"", n)).collect::<Vec<_>>().join(","));
+    let mut values: Vec<(String, String, &'static str, Option<&str>)> = vec![];     // (class, raw value, token type, expectation)
+    // every subset of the eight names (quick: all 8 singletons, all 28 pairs, the full set, and a sample), in canonical and shuffled order
+    for bits in 0..256usize {
+        let k = (bits as u32).count_ones();
+        if !(thorough || k <= 2 || k == 8 || r.chance(1, 6)) { continue; }
+        let mut names: Vec<&str> = (0..8).filter(|i| (bits >> i) & 1 == 1).map(|i| OP_NAMES[i]).collect();
+        if bits % 2 == 1 { shuffle(r, &mut names); }
+        values.push((format!("key_ops:subset:{}", k), quote(&names), "strarr", Some("ok")));
+    }
+    for (c, raw, t, e) in [
+        ("key_ops:unknown-name", "[\"sign\",\"bogus\"]", "strarr", Some("ok")), ("key_ops:unknown-only", "[\"bogus\",\"\",\"Sign\",\"SIGN\",\"sign \"]", "strarr", Some("ok")),
+        ("key_ops:duplicate", "[\"sign\",\"sign\"]", "strarr", None), ("key_ops:duplicate-far", "[\"verify\",\"sign\",\"encrypt\",\"verify\"]", "strarr", None),
+        ("key_ops:duplicate-unknown", "[\"bogus\",\"bogus\"]", "strarr", Some("ok")),
+        ("key_ops:non-array:string", "\"sign\"", "str", None), ("key_ops:non-array:number", "4", "num", None), ("key_ops:non-array:object", "{\"sign\":true}", "obj", None),
+        ("key_ops:non-array:null", "null", "null", None), ("key_ops:non-array:bool", "true", "bool", None),
+        ("key_ops:non-string-element:number", "[\"sign\",4]", "arr", None), ("key_ops:non-string-element:null", "[null]", "arr", None), ("key_ops:non-string-element:array", "[[\"sign\"]]", "arr", None),
+        ("key_ops:whitespace", "[ \"sign\" ,\n\t\"verify\" ]", "strarr", Some("ok")),
+    ] { values.push((c.into(), raw.into(), t, e)); }
+    for (class, raw, t, expect) in values {
+        let (info, sk, pk, sec_ms) = base(r);
+        let mut ms = sec_ms.clone();
+        ms.insert(r.below(ms.len() + 1), Member { key: "key_ops".into(), raw, t });
+        let want: Option<(Option<&[u8]>, Option<&[u8]>)> = if expect == Some("ok") { Some((Some(&sk), pk.as_deref())) } else { None };
+        o.jwk(r, &ms, false, &format!("known-extra:{}", class), expect, &info, want, true);
+    }
+    // "use": the three classes, odd values, wrong types; alone, doubled, and with key_ops on either side
+    let uses: [(&str, &str, &'static str, Option<&str>); 10] = [("enc", "\"enc\"", "str", Some("ok")), ("sig", "\"sig\"", "str", Some("ok")), ("other", "\"other\"", "str", Some("ok")), ("empty", "\"\"", "str", Some("ok")),
+        ("case", "\"SIG\"", "str", Some("ok")), ("number", "1", "num", None), ("null", "null", "null", None), ("array", "[\"sig\"]", "strarr", None), ("object", "{}", "obj", None), ("bool", "false", "bool", None)];
+    for (name, raw, t, expect) in uses {
+        let (info, sk, pk, sec_ms) = base(r);
+        let want: Option<(Option<&[u8]>, Option<&[u8]>)> = if expect == Some("ok") { Some((Some(&sk), pk.as_deref())) } else { None };
+        let mut ms = sec_ms.clone();
+        ms.insert(r.below(ms.len() + 1), Member { key: "use".into(), raw: raw.into(), t });
+        o.jwk(r, &ms, false, &format!("known-extra:use:{}", name), expect, &info, want, true);
+        if expect == Some("ok") {
+            for (tag, kraw) in [("key_ops-after", "[\"deriveKey\"]"), ("key_ops-before", "[\"deriveBits\",\"wrapKey\"]")] {
+                let mut ms = sec_ms.clone();
+                let (u, k) = (Member { key: "use".into(), raw: raw.into(), t }, Member { key: "key_ops".into(), raw: kraw.into(), t: "strarr" });
+                if tag == "key_ops-after" { ms.insert(0, u); ms.push(k); } else { ms.insert(0, k); ms.push(u); }
+                o.jwk(r, &ms, false, &format!("known-extra:use:{}:{}", name, tag), expect, &info, want, true);
+            }
+            let mut ms = sec_ms.clone();
+            ms.insert(0, Member { key: "use".into(), raw: raw.into(), t });
+            ms.push(Member { key: "use".into(), raw: "\"enc\"".into(), t: "str" });
+            o.jwk(r, &ms, false, &format!("known-extra:use:{}:then-enc", name), None, &info, want, true);
+        }
+    }
+}
+
+fn enc_case(info: &AlgInfo, secret: Option<&[u8]>, public: Option<&[u8]>, mode: &str, view: Option<&str>, ops: Option<u64>, kid: Option<&str>, class: &str) -> Value {
+    let mut prim = Map::new();
+    hints_bytes(&mut prim, info.name, secret, public);
+    let mut c = json!({"kind": "c14:enc", "alg": info.name, "mode": mode, "view": view, "ops": ops, "kid": kid.map(|k| hex::encode(k.as_bytes())), "class": class, "prim": prim});
+    if let Some(s) = secret { c["secret"] = json!(hex::encode(s)); }
+    if let Some(p) = public { c["public"] = json!(hex::encode(p)); }
+    c
+}
+
+/// export through `JwkBufferEncoder` with every subset of the eight operations and a `kid`
+fn gen_enc(o: &mut Out, r: &mut Rng, thorough: bool) {
+    let all = algs();
+    let keys: Vec<(usize, Vec<u8>)> = (0..all.len()).map(|i| (i, random_secret(r, &all[i]))).collect();
+    let asym: Vec<usize> = (0..all.len()).filter(|&i| all[i].class != Class::Sym).collect();
+    let modes = ["public", "secret", "thumbprint"];
+    // every subset × (no kid | a kid), the key type and mode rotating
+    for bits in 0..256u64 {
+        for with_kid in [false, true] {
+            if !thorough && with_kid && bits % 3 != 0 && bits.count_ones() > 1 { continue; }
+            let i = asym[((bits as usize) * 2 + with_kid as usize) % asym.len()];
+            let mode = modes[((bits as usize) + with_kid as usize) % 2];
+            let kid = if with_kid { Some(if bits % 2 == 0 { "k1" } else { "urn:uuid:9f1c-7;key=1" }) } else { None };
+            o.push(enc_case(&all[i], Some(&keys[i].1), None, mode, None, Some(bits), kid, &format!("enc:subset:{}", bits.count_ones())));
+        }
+    }
+    // every key type (symmetric too) × mode, with and without the two arguments
+    for (i, sk) in &keys {
+        for mode in modes {
+            for (ops, kid, class) in [(None, None, "enc:plain"), (Some(4 | 8), Some("k1"), "enc:sign+verify+kid"), (None, Some("FdFYFzERwC2uCBB46pZQi4GG85LujR8obt-KWRBICVQ"), "enc:kid"), (Some(0), None, "enc:empty-set")] {
+                o.push(enc_case(&all[*i], Some(sk), None, mode, None, ops, kid, class));
+            }
+        }
+    }
+    // public-only keys and the G1 / G2 views of a G1G2 key
+    for &i in &asym {
+        let pk = hex::decode(summary(&import_secret(all[i].alg, &keys[i].1).unwrap())["public"].as_str().unwrap()).unwrap();
+        for mode in ["public", "secret"] { o.push(enc_case(&all[i], None, Some(&pk), mode, None, Some(1 | 2), Some("pub"), "enc:public-only")); }
+        if all[i].name == "bls12381g1g2" {
+            for view in ["bls12381g1", "bls12381g2"] { for mode in modes { o.push(enc_case(&all[i], Some(&keys[i].1), None, mode, Some(view), Some(4), Some("v"), "enc:view")); } }
+        }
+    }
+    // kid: boundary texts; those that need escaping in JSON are written raw by `add_str`
+    let ed = alg_by_name("ed25519").unwrap();
+    let sk = &keys.iter().find(|(i, _)| all[*i].name == "ed25519").unwrap().1;
+    let long = "k".repeat(300);
+    for (kid, class) in [("", "enc:kid:empty"), (" ", "enc:kid:space"), ("a b,c:d}e]f{g[h", "enc:kid:json-punctuation"), ("é€😀", "enc:kid:non-ascii"), (long.as_str(), "enc:kid:long"),
+        ("a\"b", "enc:kid:quote"), ("a\\", "enc:kid:backslash-last"), ("a\\\"b", "enc:kid:backslash-quote"), ("a\\u0041", "enc:kid:backslash-u"), ("x\",\"d\":\"AAAA", "enc:kid:member-injection"),
+        ("line\nbreak", "enc:kid:newline"), ("tab\there", "enc:kid:tab"), ("\u{0}", "enc:kid:nul"), ("\u{7f}", "enc:kid:del")] {
+        for mode in ["public", "secret"] { o.push(enc_case(&ed, Some(sk), None, mode, None, None, Some(kid), class)); }
+    }
+}
+
+fn gen_keypair(o: &mut Out, r: &mut Rng, thorough: bool) {
+    let put = |o: &mut Out, info: &AlgInfo, b: &[u8], class: &str| {
+        let mut prim = Map::new();
+        if b.len() == info.sk + info.pk { hints_bytes(&mut prim, info.name, Some(&b[..info.sk]), None); }
+        o.push(json!({"kind": "c14:keypair", "op": "from", "alg": info.name, "bytes": hex::encode(b), "class": class, "prim": prim}));
+    };
+    for name in KEYPAIR_ALGS {
+        let info = alg_by_name(name).unwrap();
+        let (n, m) = (info.sk, info.pk);
+        let pair = |r: &mut Rng| -> (Vec<u8>, Vec<u8>) { let sk = random_secret(r, &info); let pk = import_secret(info.alg, &sk).unwrap().to_public_bytes().unwrap().to_vec(); (sk, pk) };
+        // valid pairs (built from the two single exports, not by to_keypair_bytes)
+        for _ in 0..(if thorough { 12 } else { 4 }) { let (sk, pk) = pair(r); put(o, &info, &[sk, pk].concat(), "keypair:valid"); }
+        let (sk, pk) = pair(r);
+        let (sk2, pk2) = pair(r);
+        let good = [sk.clone(), pk.clone()].concat();
+        // every length 0..=n+m+2: random bytes, and the valid pair cut / padded to that length
+        for len in 0..=(n + m + 2) {
+            put(o, &info, &r.bytes(len), &format!("keypair:len:{}:random", len));
+            if len != n + m { let mut b = good.clone(); b.resize(len, 0); put(o, &info, &b, &format!("keypair:len:{}:valid-prefix", len)); }
+        }
+        // the halves of two keys crossed
+        put(o, &info, &[sk.clone(), pk2.clone()].concat(), "keypair:public-of-another-key");
+        put(o, &info, &[sk2.clone(), pk.clone()].concat(), "keypair:secret-of-another-key");
+        put(o, &info, &[pk.clone(), sk.clone()].concat()[..n + m].to_vec(), "keypair:halves-swapped");
+        // one bit of either half
+        for (pos, class) in [(0usize, "keypair:bit:secret-first"), (n - 1, "keypair:bit:secret-last"), (n, "keypair:bit:public-first"), (n + m - 1, "keypair:bit:public-last")] {
+            let mut b = good.clone(); b[pos] ^= 1; put(o, &info, &b, class);
+        }
+        // boundary scalars with a valid public part, and with the public part the scalar would have if it were accepted
+        let mut scalars: Vec<(Vec<u8>, &str)> = vec![(vec![0u8; n], "zero"), (vec![0xffu8; n], "all-ff"), ({ let mut v = vec![0u8; n]; v[n - 1] = 1; v }, "one")];
+        let ord = match name { "p256" => Some(ORDER_P256), "k256" => Some(ORDER_K256), "p384" => Some(ORDER_P384), _ => None };
+        if let Some(h) = ord {
+            let ord = hex::decode(h).unwrap();
+            let l = ord.len();
+            scalars.push((ord.clone(), "order"));
+            let mut a = ord.clone(); a[l - 1] -= 1; scalars.push((a, "order-1"));
+            let mut a = ord.clone(); a[l - 1] += 1; scalars.push((a, "order+1"));
+        }
+        for (s, class) in scalars {
+            put(o, &info, &[s.clone(), pk.clone()].concat(), &format!("keypair:scalar:{}:other-public", class));
+            if let Ok(k) = import_secret(info.alg, &s) { put(o, &info, &[s.clone(), k.to_public_bytes().unwrap().to_vec()].concat(), &format!("keypair:scalar:{}:own-public", class)); }
+            else if info.class == Class::Ec { let mut idp = vec![0u8; m]; idp[0] = 2; put(o, &info, &[s.clone(), idp].concat(), &format!("keypair:scalar:{}:x-zero-public", class)); put(o, &info, &[s.clone(), vec![0u8; m]].concat(), &format!("keypair:scalar:{}:zero-public", class)); }
+        }
+        if info.class == Class::Ec {
+            // the same point under the other tag; tags that are not a compressed point
+            for tag in [pk[0] ^ 1, 0, 4, 5, 6] { let mut p = pk.clone(); p[0] = tag; put(o, &info, &[sk.clone(), p].concat(), &format!("keypair:tag:{:02x}", tag)); }
+        } else {
+            // a second encoding of the same public key (high bit / sign bit)
+            let mut p = pk.clone(); p[31] ^= 0x80; put(o, &info, &[sk.clone(), p].concat(), "keypair:public-high-bit");
+        }
+        // to_keypair_bytes of a public-only key
+        for p in [pk.clone(), pk2.clone()] { o.push(json!({"kind": "c14:keypair", "op": "to_public", "alg": info.name, "bytes": hex::encode(&p), "class": "keypair:public-only", "expect": "ok", "prim": {}})); }
+        o.push(json!({"kind": "c14:keypair", "op": "to_public", "alg": info.name, "bytes": hex::encode(r.bytes(m + 1)), "class": "keypair:public-only:bad", "prim": {}}));
+    }
+}
+
+/// Ed25519 public-key encodings with a story: the eight small-order points in canonical and non-canonical spellings
+/// (the alphabet of the C13 generator, completed), y = p .. 2^255 - 1 (every non-canonical y) with both sign bits, y = 2 (off the curve)
+fn ed_special_publics() -> Vec<(String, Vec<u8>)> {
+    let mut v: Vec<(String, Vec<u8>)> = vec![];
+    for (i, h) in ["0100000000000000000000000000000000000000000000000000000000000000", "ecffffffffffffffffffffffffffffffffffffffffffffffffffffffffffff7f",
+        "0000000000000000000000000000000000000000000000000000000000000000", "0000000000000000000000000000000000000000000000000000000000000080",
+        "26e8958fc2b227b045c3f489f2ef98f0d5dfac05d3c63339b13802886d53fc05", "26e8958fc2b227b045c3f489f2ef98f0d5dfac05d3c63339b13802886d53fc85",
+        "c7176a703d4dd84fba3c0b760d10670f2a2053fa2c39ccc64ec7fd7792ac037a", "c7176a703d4dd84fba3c0b760d10670f2a2053fa2c39ccc64ec7fd7792ac03fa",
+        "0100000000000000000000000000000000000000000000000000000000000080", "ecffffffffffffffffffffffffffffffffffffffffffffffffffffffffffffff"].iter().enumerate() {
+        v.push((format!("small-order:{}", i), hex::decode(h).unwrap()));
+    }
+    for k in 0..19u8 {
+        for sign in [0u8, 0x80] {
+            let mut b = vec![0xffu8; 32];
+            b[0] = 0xed + k;
+            b[31] = 0x7f | sign;
+            v.push((format!("non-canonical-y:p+{}:{}", k, if sign == 0 { "plus" } else { "minus" }), b));
+        }
+    }
+    for y in [2u8, 3, 4, 5, 6, 7, 8, 9, 10] { let mut b = vec![0u8; 32]; b[0] = y; v.push((format!("small-y:{}", y), b)); }
+    v
+}
+
+fn gen_convert(o: &mut Out, r: &mut Rng, thorough: bool) {
+    let all = algs();
+    let conv = |info: &AlgInfo, secret: Option<&[u8]>, public: Option<&[u8]>, to: &str, class: &str| -> Value {
+        let mut prim = Map::new();
+        hints_bytes(&mut prim, info.name, secret, public);
+        let mut c = json!({"kind": "c14:convert", "alg": info.name, "to": to, "class": class, "prim": prim});
+        if let Some(s) = secret { c["secret"] = json!(hex::encode(s)); }
+        if let Some(p) = public { c["public"] = json!(hex::encode(p)); }
+        c
+    };
+    // every (from, to) pair of the 16 algorithms with a key pair; asymmetric sources also public-only
+    for from in &all {
+        let sk = random_secret(r, from);
+        let pk = import_secret(from.alg, &sk).ok().and_then(|k| k.to_public_bytes().ok().map(|b| b.to_vec()));
+        for to in &all {
+            o.push(conv(from, Some(&sk), None, to.name, "convert:pair"));
+            if let Some(pk) = &pk { if thorough || to.class != Class::Sym { o.push(conv(from, None, Some(pk), to.name, "convert:pair:public-only")); } }
+        }
+    }
+    // Ed25519 -> X25519: random pairs, public halves, boundary secrets
+    let ed = alg_by_name("ed25519").unwrap();
+    for i in 0..(if thorough { 60 } else { 16 }) {
+        let sk = match i { 0 => vec![0u8; 32], 1 => vec![0xffu8; 32], _ => r.bytes(32) };
+        let pk = import_secret(ed.alg, &sk).unwrap().to_public_bytes().unwrap().to_vec();
+        o.push(conv(&ed, Some(&sk), None, "x25519", "convert:ed:keypair"));
+        o.push(conv(&ed, None, Some(&pk), "x25519", "convert:ed:public"));
+        // through a JWK
+        let text = summary(&import_public(ed.alg, &pk).unwrap())["jwk_public"].as_str().unwrap().to_string();
+        let mut prim = Map::new();
+        hints_bytes(&mut prim, "ed25519", None, Some(&pk));
+        o.push(json!({"kind": "c14:convert", "jwk": hex::encode(text.as_bytes()), "text": text, "to": "x25519", "class": "convert:ed:public-jwk", "prim": prim}));
+    }
+    // public keys that are importable but odd: small order, non-canonical; and random strings (about half decompress)
+    for (name, b) in ed_special_publics() {
+        o.push(conv(&ed, None, Some(&b), "x25519", &format!("convert:ed:{}", name)));
+        let text = format!("{{\"crv\":\"Ed25519\",\"kty\":\"OKP\",\"x\":\"{}\"}}", b64e(&b));
+        let mut prim = Map::new();
+        hints_bytes(&mut prim, "ed25519", None, Some(&b));
+        o.push(json!({"kind": "c14:convert", "jwk": hex::encode(text.as_bytes()), "text": text, "to": "x25519", "class": format!("convert:ed:jwk:{}", name), "prim": prim}));
+    }
+    for _ in 0..(if thorough { 200 } else { 40 }) { let b = r.bytes(32); o.push(conv(&ed, None, Some(&b), "x25519", "convert:ed:random-public")); }
+    // BLS G1G2 -> G1 / G2: keys made from a seed (so that the crate's own G1 / G2 keys of that seed can be compared), pairs and public halves
+    let g12 = alg_by_name("bls12381g1g2").unwrap();
+    for i in 0..(if thorough { 24 } else { 6 }) {
+        let seed = r.bytes(32 + 7 * i);
+        let sk = match guarded(|| BlsKeyPair::<G1G2>::from_seed(&seed).and_then(|k| k.to_secret_bytes().map(|b| b.to_vec()))) { Ok(s) => s, Err(_) => continue };
+        let pk = import_secret(g12.alg, &sk).unwrap().to_public_bytes().unwrap().to_vec();
+        for to in ["bls12381g1", "bls12381g2"] {
+            let mut c = conv(&g12, Some(&sk), None, to, "convert:bls:seeded");
+            c["seed"] = json!(hex::encode(&seed));
+            o.push(c);
+            o.push(conv(&g12, None, Some(&pk), to, "convert:bls:public"));
+        }
+    }
+    for sk in [vec![0u8; 32], { let mut v = vec![0u8; 32]; v[31] = 1; v }] {
+        for to in ["bls12381g1", "bls12381g2", "bls12381g1g2"] { o.push(conv(&g12, Some(&sk), None, to, "convert:bls:boundary-scalar")); }
+    }
 }
